@@ -49,18 +49,52 @@ def g_test(x):
     return x
 
 
-def ite(g, new, old_thunk):
+def _guarded(g, thunk):
+    if not isinstance(g, SBool):
+        return thunk()
+    rt.GUARDS.append(g)
+    try:
+        return thunk()
+    finally:
+        rt.GUARDS.pop()
+
+
+class guard_ctx:
+    def __init__(self, g):
+        self.g = g if isinstance(g, SBool) else None
+
+    def __enter__(self):
+        if self.g is not None:
+            rt.GUARDS.append(self.g)
+
+    def __exit__(self, *a):
+        if self.g is not None:
+            rt.GUARDS.pop()
+        return False
+
+
+def g_under(parent, test_thunk):
+    if not isinstance(parent, SBool) and not parent:
+        return False
+    return _guarded(parent, test_thunk)
+
+
+def ite(g, new_thunk, old_thunk):
     if not isinstance(g, SBool):
         if g:
-            return new
+            return new_thunk()
         try:
             return old_thunk()
         except (NameError, UnboundLocalError):
             return None
+    new = _guarded(g, new_thunk)
+    rt.NOCHECK += 1
     try:
         old = old_thunk()
     except (NameError, UnboundLocalError):
         old = _UNDEF
+    finally:
+        rt.NOCHECK -= 1
     if old is _UNDEF or old is None:
         return new          # C semantics: the variable is assigned on every path before it is read
     return rt._merge(g, new, old)
@@ -104,8 +138,13 @@ class IfConv(ast.NodeTransformer):
             if isinstance(s, ast.Assign):
                 t = s.targets[0]
                 thunk = ast.Lambda(ast.arguments([], [], None, [], [], None, []), self._load(t))
-                out.append(ast.Assign([t], ast.Call(ast.Name("__ite__", ast.Load()),
-                                                    [ast.Name(guard, ast.Load()), s.value, thunk], [])))
+                newt = ast.Lambda(ast.arguments([], [], None, [], [], None, []), s.value)
+                asg = ast.Assign([t], ast.Call(ast.Name("__ite__", ast.Load()),
+                                               [ast.Name(guard, ast.Load()), newt, thunk], []))
+                if isinstance(t, ast.Subscript):
+                    # the store itself happens under the guard (bounds obligations are guard -> in bounds)
+                    asg = ast.With([ast.withitem(ast.Call(ast.Name("__guard_ctx__", ast.Load()), [ast.Name(guard, ast.Load())], []), None)], [asg])
+                out.append(asg)
             elif isinstance(s, ast.If):
                 out.extend(self.conv_if(s, guard))
         return out
@@ -113,7 +152,12 @@ class IfConv(ast.NodeTransformer):
     def conv_if(self, node, parent):
         self.n += 1
         gt, gf, tmp = f"__g{self.n}t", f"__g{self.n}f", f"__c{self.n}"
-        pre = [ast.Assign([ast.Name(tmp, ast.Store())], self._test(node.test))]
+        test = self._test(node.test)
+        if parent:
+            # a nested test is only evaluated where its parent guard can hold (its operands may be unassigned elsewhere)
+            test = ast.Call(ast.Name("__g_under__", ast.Load()),
+                            [ast.Name(parent, ast.Load()), ast.Lambda(ast.arguments([], [], None, [], [], None, []), test)], [])
+        pre = [ast.Assign([ast.Name(tmp, ast.Store())], test)]
         par = [ast.Name(parent, ast.Load())] if parent else []
         pre.append(ast.Assign([ast.Name(gt, ast.Store())],
                               ast.Call(ast.Name("__g_and__", ast.Load()), par + [ast.Name(tmp, ast.Load())], [])))
@@ -146,4 +190,4 @@ def ifconv_pass(fn):
     return IfConv().visit(fn)
 
 
-NS = dict(__ite__=ite, __g_and__=g_and, __g_or__=g_or, __g_not__=g_not, __g_test__=g_test)
+NS = dict(__guard_ctx__=guard_ctx, __g_under__=g_under, __ite__=ite, __g_and__=g_and, __g_or__=g_or, __g_not__=g_not, __g_test__=g_test)
